@@ -438,10 +438,10 @@ fn analyse(src: String) -> Result<Vec<(String, u32)>, String> {
     })
 }
 
-const N_CTX: usize = 15;
+const N_CTX: usize = 17;
 const CTX_NAMES: [&str; N_CTX] = [
     "local", "global", "arg", "return", "assign", "binary", "compare", "array", "struct-field", "via-weak-local",
-    "paren", "compound-assign", "optional", "distinct", "cast",
+    "paren", "compound-assign", "optional", "distinct", "cast", "global-comptime", "local-comptime",
 ];
 
 fn ctx_src(ctx: usize, k: usize, t: &str, lit: &str) -> String {
@@ -460,7 +460,9 @@ fn ctx_src(ctx: usize, k: usize, t: &str, lit: &str) -> String {
         11 => format!("c{k} :: () {{ x : {t} = 0; x += {lit}; }}\n"),
         12 => format!("c{k} :: () {{ x : ?{t} = {lit}; }}\n"),
         13 => format!("c{k}D :: distinct {t};\nc{k} :: () {{ x : c{k}D = {lit}; }}\n"),
-        _ => format!("c{k} :: () {{ x := {t}.({lit}); }}\n"),
+        14 => format!("c{k} :: () {{ x := {t}.({lit}); }}\n"),
+        15 => format!("c{k} : {t} : comptime {{ {lit} }};\n"),
+        _ => format!("c{k} :: () {{ x : {t} = comptime {{ {lit} }}; }}\n"),
     }
 }
 
@@ -606,7 +608,7 @@ fn build_note(o: &e2e::Outcome) -> String {
 pub fn run(tier: &str, seed: u64, widen: bool) -> Report {
     let mut rep = Report::new(
         "C09",
-        "A: real lexer+parser+hir::lower on integer spellings vs Lean lowerInt; F: the same on string/char literals vs lowerString/lowerChar; B/C: real hir_ty (in-process front end) on annotated / unannotated literals in 15+14 syntactic contexts (unannotated: local, global, arithmetic, negation, and nine value-preserving wrappers: parentheses, comptime block, block, if, switch arm, array element, labelled break, parenthesised operand, parenthesised assignment) vs acceptsAt / defaultTy; D: real capy CLI + built executable printing every accepted literal vs finalValue; E: float literal bit patterns at run time vs Rust str::parse",
+        "A: real lexer+parser+hir::lower on integer spellings vs Lean lowerInt; F: the same on string/char literals vs lowerString/lowerChar; B/C: real hir_ty (in-process front end) on annotated / unannotated literals in 17+14 syntactic contexts (unannotated: local, global, arithmetic, negation, and nine value-preserving wrappers: parentheses, comptime block, block, if, switch arm, array element, labelled break, parenthesised operand, parenthesised assignment) vs acceptsAt / defaultTy; D: real capy CLI + built executable printing every accepted literal vs finalValue; E: float literal bit patterns at run time vs Rust str::parse",
         "exhaustive boundary set: 0,1,9,10,100,255,256,1000, 2^w-2..2^w+1 for w in {7,8,15,16,31,32,63,64}, 3e9, 1e19, 1.8e19, 2^64±6, 2e19, 1e20, 2^65, 10*2^64; every value in every systematic spelling (plain, thousands separators, leading zeros, e0, every trailing-zero exponent form, hex lower/upper/padded, binary/padded) plus seeded random separator/case/padding variations and random mantissa/exponent spellings; annotated at all 12 integer types in 15 contexts, unannotated in 5; every escape character (all printable ASCII after a backslash + non-ASCII) valid or not, in strings and chars; non-trivial = value within 2 of a type boundary, a spelling with separator/exponent/radix prefix, or a literal with an escape; distinct by (stream, context, type, spelling)",
     );
     if std::env::var("CVH_LOUD").is_ok() {
